@@ -32,6 +32,7 @@ QUESTIONS: Dict[str, List[Tuple[str, int, bool]]] = {
     "srv-qu+txt-qu": [(S1.name, 33, True), (S1.name, 16, True)],
     "ptr-qu+srv-qm+a-qu": [(TA, 12, True), (S1.name, 33, False), (S1.server, 1, True)],
     "ptrb-qu+ptr-qm": [("_b._tcp.local.", 12, True), (TA, 12, False)], "other-qu": [("_zz._tcp.local.", 12, True)],
+    "ptrb-qu": [("_b._tcp.local.", 12, True)], "srvb-qu": [(S3.name, 33, True)], "ab-qu": [(S3.server, 1, True)],
 }
 # ages of the host's own last multicast (ms after the last announcement looped back) around ttl/4 of 60/120/300/4500 s
 AGES = {"400ms": 400, "fresh": 5_000, "15s-1": 14_999, "15s": 15_000, "15s+1": 15_001, "30s-1": 29_999, "30s": 30_000, "30s+1": 30_001,
@@ -46,6 +47,10 @@ def grid(tier: str) -> List[Dict[str, Any]]:
             QUESTIONS, (False, True), (0, 0x1234), (5353, 1234), ("v4", "v6"), ages, ("single", "dual")):
         if fam == "v6" and socks == "single":
             continue
+        if age.endswith("+1") and port == 5353 and socks == "single" and id_ == 0 and any(qu for _, _, qu in QUESTIONS[q]):
+            # the same QU query (byte-identical, same source) already arrived 800 ms earlier, before the quarter-TTL boundary
+            pts.append({"q": q, "probe": probe, "id": id_, "port": port, "fam": fam, "age": age, "socks": socks,
+                        "pre_copy_ms": 800})
 
         pts.append({"q": q, "probe": probe, "id": id_, "port": port, "fam": fam, "age": age, "socks": socks})
     return pts
@@ -56,13 +61,15 @@ def run_point(p: Dict[str, Any], verbose: bool = False) -> Tuple[Optional[Dict[s
     with World(rand=RandPolicy.const(0.0)) as w:
         host = w.new_zeroconf(mode=p["socks"])
         peer = Peer(w)
+        from .c12 import Seen, key as seen_key
+        seen_proc = Seen(host.zc)  # what the host processed (the duplicate guard drops byte-identical repeats)
         for s in REG.values():
             register(w, host, make_info(s))
         # the last announcement of the last registration looped back just now (+100 us)
         w.advance(1)
         t_ann = max(s.t_us for s in w.net.trace if s.host == host.name and s.multicast) / 1000 + 0.1
         tq = t_ann + AGES[p["age"]]
-        w.advance_to_ms(tq)
+        w.advance_to_ms(tq - p.get("pre_copy_ms", 0) - 1 if p.get("pre_copy_ms") else tq)
         qs = QUESTIONS[p["q"]]
         auth = [("PTR", TA, 1, 4500, "proposed._a._tcp.local.")] if p["probe"] else []
         data = wire.query([("Q", n, t, 0x8001 if qu else 1) for n, t, qu in qs], authorities=auth, id_=p["id"])
@@ -79,6 +86,11 @@ def run_point(p: Dict[str, Any], verbose: bool = False) -> Tuple[Optional[Dict[s
             rx = [t for t in host.transports() if (t.sock.role == "listen" and not v6) or
                   (v6 and t.sock.role == "respond" and t.sock.family == socket.AF_INET6)][0]
         src = (src_ip, p["port"], 0, host.scope_id) if v6 else (src_ip, p["port"])
+        if p.get("pre_copy_ms"):
+            w.advance_to_ms(tq - p["pre_copy_ms"])
+            rx.protocol.datagram_received(data, src)
+            w.settle()
+            w.advance_to_ms(tq)
         n_before = len(w.net.trace)
         rx.protocol.datagram_received(data, src)
         w.settle()
@@ -103,12 +115,20 @@ def run_point(p: Dict[str, Any], verbose: bool = False) -> Tuple[Optional[Dict[s
         mc_any: Set[tuple] = set()
         no_mc: Set[tuple] = set()
 
-        def recency(i: tuple, ttl: int) -> str:
-            lm = last_mc.get(i)
+        def recency_of(lm: Optional[float], ttl: int) -> str:
             if lm is None:
                 return "old"
             edge = lm + ttl * 250
             return "edge" if abs(edge - tq) < 0.5 else ("recent" if edge > tq else "old")
+
+        def recency(i: tuple, ttl: int) -> str:
+            a = recency_of(last_mc.get(i), ttl)
+            # the host's own third announcement is byte-identical to the second and is dropped by its duplicate guard
+            # (see the C12 known finding): where "last multicast" on the wire and "last seen" by the host disagree,
+            # the statement ("has not been seen multicast") does not decide - either routing is accepted
+            times = [t for t in seen_proc.log.get(seen_key(i), []) if t < tq]
+            b = recency_of(max(times) if times else None, ttl)
+            return a if a == b else "edge"
 
         per_q: List[Tuple[bool, Dict[tuple, int]]] = []
         for n, t, qu in qs:
